@@ -155,3 +155,27 @@ def backwardErrorDense (doc : Nat → Nat → Rat) (n : Nat) (v rhs : List Rat) 
   (maxL ((List.zipWith (· - ·) av rhs).map absQ), maxL rs * maxL (v.map absQ) + maxL (rhs.map absQ))
 
 end PbVerif.Whittaker
+
+namespace PbVerif.Whittaker
+
+/-! ### the 2-D penalty as `two_d/_whittaker_utils.py: PenalizedSystem2D.reset_diagonals` builds it
+(`kron(lam_r·P_r, identity(n)) + kron(identity(m), lam_c·P_c)`), and `add_diagonal`
+(`penalty.setdiag(main_diagonal + w)`) -/
+
+/-- entry (a, b) of `scipy.sparse.kron(A, B)` for an `n × n` right factor: `A[a // n, b // n] · B[a % n, b % n]` -/
+def kronE (A B : Nat → Nat → Rat) (n a b : Nat) : Rat := A (a / n) (b / n) * B (a % n) (b % n)
+/-- `scipy.sparse.identity` -/
+def idE (i j : Nat) : Rat := if i = j then 1 else 0
+
+/-- `self.penalty = P_rows + P_columns` -/
+def pen2d (m n dr dc : Nat) (lamr lamc : Rat) (a b : Nat) : Rat :=
+  kronE (fun p q => lamr * dtdFastQ m dr p q) idE n a b + kronE idE (fun p q => lamc * dtdFastQ n dc p q) n a b
+
+/-- the `lhs` handed to `direct_solve`: the penalty with `main_diagonal + weights` on the diagonal -/
+def asm2d (m n dr dc : Nat) (lamr lamc : Rat) (w : List Rat) (a b : Nat) : Rat :=
+  if a = b then pen2d m n dr dc lamr lamc a a + w.getD a 0 else pen2d m n dr dc lamr lamc a b
+
+def asm2dRows (m n dr dc : Nat) (lamr lamc : Rat) (w : List Rat) : List (List Rat) :=
+  (List.range (m * n)).map fun (a : Nat) => (List.range (m * n)).map fun (b : Nat) => asm2d m n dr dc lamr lamc w a b
+
+end PbVerif.Whittaker
